@@ -20,8 +20,14 @@ logging.disable(logging.CRITICAL)
 
 LEAN_TARGETS = ["NfcVerif.Props.C17", "drv_c17"]
 
-THEOREMS = [
-]
+THEOREMS = ["NfcVerif.C17." + t for t in [
+    "bind_refines_spec", "errno_exact", "bound_socket_refused", "errno_table_partial",
+    "named_exhaustion_witness", "named_exhaustion_counterexample",
+    "wks_fixed", "named_range_16_31", "anon_range_32_63",
+    "reachable_invariant", "addr_unique", "link_keeps_table",
+    "close_frees", "close_keeps_shared", "names_live",
+    "resolve_exact", "connect_by_name_exact", "connect_by_name_absent", "datagram_delivery",
+]]
 
 SN = b"urn:nfc:sn:"
 NAMES_VALID = [SN + b"a", SN + b"b", b"urn:nfc:xsn:c.d", SN + b"snep", SN + b"a\n"]
@@ -516,7 +522,7 @@ def run(ck):
 
     # bounded-exhaustive short histories over a tiny alphabet
     depth = 3 if ck.thorough else 2
-    sample4 = 6000 if ck.thorough else 1200
+    sample4 = 20000 if ck.thorough else 4000
     for d in range(1, depth + 1):
         for seq in itertools.product(EX_ALPHA, repeat=d):
             runs.append(("exhaustive<=%d" % depth,) + judged_history(EX_PREFIX + list(seq)))
@@ -525,7 +531,7 @@ def run(ck):
         runs.append(("alphabet-random",) + judged_history(EX_PREFIX + seq))
 
     # random histories
-    nrand = 1500 if ck.thorough else 260
+    nrand = 8000 if ck.thorough else 1200
     for j in range(nrand):
         prof = PROFILES[j % len(PROFILES)]
         length = rng.choice([rng.randrange(5, 60), rng.randrange(60, 200), rng.randrange(100, 260) if prof in ("table", "named") else 40])
